@@ -76,6 +76,7 @@ Path(segs) == [k |-> "var", segs |-> segs]
 Key(s) == [t |-> "k", v |-> s]
 KeyB(s) == [t |-> "k", v |-> s, br |-> TRUE]
 Idx(i) == [t |-> "i", i |-> i]
+IdxS(i) == [t |-> "i", i |-> i, sh |-> TRUE]        \* written .0 (migration.md "Shorthand array indexes")
 Sub(segs) == [t |-> "p", p |-> segs]
 TableRow(n, it, itsrc, limit, offset, cols, b) ==
   [k |-> "tablerow", n |-> n, it |-> it, itsrc |-> itsrc, limit |-> limit, offset |-> offset, rev |-> FALSE,
